@@ -104,16 +104,22 @@ def main():
             ids = checks.split(",")
         env = dict(ENV, VERIF_REPO=wt, VERIF_OUT=outd, PYTHONDONTWRITEBYTECODE="1")
         res["checks"] = {}
+        # the checks run from a snapshot of /verif (edits made meanwhile do not disturb them) and share /verif's TLC result cache
+        # (TLC's answers do not depend on the tree under test)
+        snap = outd + ".verif"
+        if ids:
+            subprocess.run("rm -rf %s; mkdir -p %s %s/build /verif/build/tlccache; rsync -a --exclude build --exclude .git --exclude seeded --exclude replays "
+                           "--exclude evidence /verif/ %s/; ln -sfn /verif/build/tlccache %s/build/tlccache" % (snap, snap, outd, snap, outd), shell=True)
         for cid in ids:
             t0 = time.time()
-            rc, out = sh("python3 -m vf.main check %s --tier %s" % (cid, tier), "/verif", timeout=7200, env=env)
+            rc, out = sh("python3 -m vf.main check %s --tier %s" % (cid, tier), snap, timeout=7200, env=env)
             lines = [l for l in out.splitlines() if l.startswith("VIOLATION") or l.startswith("  signature") or "INFRASTRUCTURE" in l]
             res["checks"][cid] = {"exit": rc, "wall_s": round(time.time() - t0, 1), "lines": lines[:12], "summary": out.strip().splitlines()[-1:] if out.strip() else []}
             print("%s on %s: exit %d (%.0fs) %s" % (cid, name, rc, time.time() - t0, "; ".join(lines[:4])[:400]))
         res["detected_by"] = sorted(c for c, r in res["checks"].items() if r["exit"] == 1)
     finally:
         if "--keep" not in args:
-            subprocess.run("git -C /repo worktree remove --force %s; rm -rf %s %s; git -C /repo worktree prune" % (wt, wt, outd), shell=True)
+            subprocess.run("git -C /repo worktree remove --force %s; rm -rf %s %s %s.verif; git -C /repo worktree prune" % (wt, wt, outd, outd), shell=True)
     json.dump(res, open(os.path.join(sd, "result.json"), "w"), indent=1)
     print(json.dumps({k: v for k, v in res.items() if k in ("property", "confirmed", "detected_by", "patch_applies", "repo_tests_pass_with_patch")}))
     print("demo without:", res.get("demo_without_patch", {}).get("exit"), " with:", res.get("demo_with_patch", {}).get("exit"))
